@@ -740,6 +740,9 @@ pub(crate) fn calculate_checksum(block: &[u8], compression_type: CompressionType
 }
 
 /// Reads a filter block from the file.
+///
+/// The writer stores the filter block like every other block (data, compression
+/// type, masked CRC32), so it is verified the same way before it is used.
 pub(crate) fn read_filter_block(
 	src: Arc<dyn File>,
 	location: &BlockHandle,
@@ -748,7 +751,7 @@ pub(crate) fn read_filter_block(
 	if location.size() == 0 {
 		return Err(Error::FilterBlockEmpty);
 	}
-	let buf = read_bytes(src, location)?;
+	let buf = read_verified_block_bytes(src, location)?.0;
 	Ok(FilterBlockReader::new(buf, policy))
 }
 
@@ -766,12 +769,9 @@ fn read_writer_meta_properties(metaix: &Block) -> Result<Option<TableMetadata>> 
 	Ok(None)
 }
 
-/// Reads and verifies a table block from the file.
-pub(crate) fn read_table_block(
-	comparator: Arc<dyn Comparator>,
-	f: Arc<dyn File>,
-	location: &BlockHandle,
-) -> Result<Block> {
+/// Reads the raw bytes of a block together with its compression type and verifies
+/// the checksum stored in the block trailer.
+fn read_verified_block_bytes(f: Arc<dyn File>, location: &BlockHandle) -> Result<(Vec<u8>, u8)> {
 	// Read block data
 	let buf = read_bytes(Arc::clone(&f), location)?;
 
@@ -797,8 +797,19 @@ pub(crate) fn read_table_block(
 		}));
 	}
 
+	Ok((buf, compress[0]))
+}
+
+/// Reads and verifies a table block from the file.
+pub(crate) fn read_table_block(
+	comparator: Arc<dyn Comparator>,
+	f: Arc<dyn File>,
+	location: &BlockHandle,
+) -> Result<Block> {
+	let (buf, compress) = read_verified_block_bytes(f, location)?;
+
 	// Decompress
-	let block = decompress_block(&buf, CompressionType::try_from(compress[0])?)?;
+	let block = decompress_block(&buf, CompressionType::try_from(compress)?)?;
 
 	Ok(Block::new(block, comparator))
 }
